@@ -31,6 +31,8 @@ type Var struct {
 type Case struct {
 	Vars []Var        `json:"vars"`
 	Ops  []reflist.Op `json:"ops"`
+	// Global: the variables are global variables (defvar) instead of variables of the evaluation scope
+	Global bool `json:"global,omitempty"`
 }
 
 var modes = []string{"list", "copy", "append", "add", "butlast", "popped", "nil"}
@@ -83,8 +85,10 @@ func initForm(v Var) string {
 
 func vname(i int) string { return "v" + strconv.Itoa(i) }
 
+func gname(i int) string { return "*c06-v" + strconv.Itoa(i) + "*" }
+
 // form is the Lisp text of an applicable operation.
-func form(p *reflist.Plan) string {
+func form(p *reflist.Plan, vname func(int) string) string {
 	op := p.Op
 	a, b, c, t := vname(op.A), vname(op.B), vname(op.C), vname(op.T)
 	x := strconv.Itoa(op.X)
@@ -191,7 +195,7 @@ func toInts(o slip.Object) (out []int, ok bool) {
 	return nil, false
 }
 
-func readVars(scope *slip.Scope, n int) ([][]int, string) {
+func readVars(scope *slip.Scope, n int, vname func(int) string) ([][]int, string) {
 	out := make([][]int, n)
 	for i := 0; i < n; i++ {
 		o := scope.Get(slip.Symbol(vname(i)))
@@ -229,7 +233,18 @@ func run(c Case) *h.Result {
 		res.Err = strings.Join(script, " ") + "  =>  " + fmt.Sprintf(format, args...)
 		return res
 	}
+	vname := vname
+	if c.Global {
+		vname = gname
+		res.Classes = append(res.Classes, "global-variables")
+	}
 	for i := range c.Vars {
+		if c.Global {
+			if out := ev.Eval(scope, "(defvar "+vname(i)+" nil)"); out.Kind != ev.Value {
+				return fail("%s", out)
+			}
+			continue
+		}
 		scope.Let(slip.Symbol(vname(i)), nil)
 	}
 	for i, v := range c.Vars {
@@ -265,7 +280,7 @@ func run(c Case) *h.Result {
 		if p.Mut != 0 {
 			res.Classes = append(res.Classes, "mutated-group-size:"+strconv.Itoa(st.GroupSize(op.A)))
 		}
-		src := form(p)
+		src := form(p, vname)
 		script = append(script, src)
 		out := ev.Eval(scope, src)
 		executed++
@@ -286,7 +301,7 @@ func run(c Case) *h.Result {
 			}
 		}
 		var bad string
-		if g.After, bad = readVars(scope, n); bad != "" {
+		if g.After, bad = readVars(scope, n, vname); bad != "" {
 			return fail("%s", bad)
 		}
 		if err := st.Check(p, g); err != nil {
@@ -336,6 +351,7 @@ var opPool = func() []string {
 
 func genCase(rt *rapid.T) Case {
 	var c Case
+	c.Global = rapid.IntRange(0, 3).Draw(rt, "global") == 0
 	nv := rapid.IntRange(2, 6).Draw(rt, "nvars")
 	for i := 0; i < nv; i++ {
 		v := Var{Mode: rapid.SampledFrom(modes).Draw(rt, "mode")}
@@ -487,13 +503,13 @@ func (g grid) each(part, parts int, yield func(Case) bool) {
 						continue
 					}
 					if len(third) == 0 {
-						if !yield(Case{Vars: vars, Ops: []reflist.Op{o1, o2}}) {
+						if !yield(Case{Vars: vars, Ops: []reflist.Op{o1, o2}, Global: idx%3 == 0}) {
 							return
 						}
 						continue
 					}
 					for _, o3 := range third {
-						if !yield(Case{Vars: vars, Ops: []reflist.Op{o1, o2, o3}}) {
+						if !yield(Case{Vars: vars, Ops: []reflist.Op{o1, o2, o3}, Global: idx%3 == 0}) {
 							return
 						}
 					}
